@@ -174,6 +174,18 @@ def run(ctx):
             jvp_check(ctx, 'propagator.__call__/%s' % tag, lambda x: prop(torch.complex(x[0], x[1]).to(torch.complex64), 1, 1),
                       rnd(2, 6, 6, dtype=torch.float32), 2e-2)
         jvp_check(ctx, 'propagator.reconstruct', lambda x: prop.reconstruct(x.unsqueeze(0), no_grad=False), rnd(6, 6, lo=0, hi=6.0, dtype=torch.float32), 3e-2)
+        # the laser powers of a conventional multi-frame display are learnable too (constructor argument `laser_channel_power`, `set_laser_powers`); the matrix of
+        # a display that switches a primary off in a frame contains exact zeros (the default is the identity) - a zero is an ordinary point of a linear map
+        ph2 = rnd(2, 6, 6, lo=0, hi=6.0, dtype=torch.float32)
+
+        def f_power(x, ph2=ph2):
+            pr = LW.propagator(resolution=[6, 6], wavelengths=[0.5, 0.6], pixel_pitch=0.8, number_of_frames=2, number_of_depth_layers=2, volume_depth=1.0,
+                               image_location_offset=0.5, propagation_type='Bandlimited Angular Spectrum', propagator_type='forward', laser_channel_power=x,
+                               device=torch.device('cpu'))
+            out = pr.reconstruct(ph2, no_grad=False, get_complex=True)
+            return torch.view_as_real(out).reshape(-1)
+        for tag, pw in (('with exact zeros', torch.tensor([[1.0, 0.0], [0.3, 0.9]])), ('identity (the default)', torch.eye(2)), ('generic', rnd(2, 2, lo=0.2, hi=1.0, dtype=torch.float32))):
+            jvp_check(ctx, 'propagator.reconstruct/laser powers ' + tag, f_power, pw.to(torch.float32), 3e-2, cls={'powers': tag}, h=1e-2)
         # ---- rays
         nrm = torch.tensor([[0.1, 0.2, 1.0], [0.2, -0.1, 0.9]], dtype=torch.float32)
         jvp_check(ctx, 'reflect/direction', lambda x: LR.reflect(torch.stack([torch.zeros(3), x]), nrm)[:, 1], rnd(3, dtype=torch.float32), 2e-2, 2e-3,
